@@ -15,7 +15,10 @@ EXPLANATION = (
     'facts reach the effects through the Either result of the security check: its success '
     'alternatives are produced only under "no check required" or under the three facts.  '
     '(R08.4) the events by which the scanner skips such a directory reach stderr in '
-    'trash-list.  Races between check and use are not decided.')
+    'trash-list, and every branch that refutes one of the three facts (of an existing '
+    '$topdir/.Trash/$uid) is followed by a stderr report on every consistent way to the '
+    'next evaluation of that test or to the end -- whatever else is found on the volume.  '
+    'Races between check and use are not decided.')
 ASSUMPTIONS = ['A4 no change of $topdir/.Trash between check and use',
                'os.stat(...).st_mode & S_ISVTX is the sticky-bit test']
 MINIMUM = {'R08.1': 6, 'R08.3': 2, 'R08.4': 2}
@@ -276,8 +279,12 @@ def check(ctx):
         compound.update(all_operands(unwrap_not(m.data['cond'], m.data['pol'])[0]))
     refuting = [(n, lost) for n, lost in refuting
                 if cid(unwrap_not(n.data['cond'], n.data['pol'])[0]) not in compound]
-    ctx.require(refuting or not tops, 'R08.4: no branch refutes the facts about $topdir/.Trash '
-                                      'in trash-list')
+    if tops and not refuting:
+        ctx.ob('R08.4', 'trash-list tests the three facts on the parent of $topdir/.Trash/$uid',
+               False, construct=b.func.qualname, text='refuting branches',
+               message='no branch of trash-list refutes "directory / not a link / sticky" for '
+                       'the parent of $topdir/.Trash/$uid: an insecure directory cannot be '
+                       'told from a secure one, nor reported')
     seen_ref = set()
     for n, lost in refuting:
         if n.id in seen_ref:
